@@ -1,0 +1,21 @@
+//go:build verif
+
+package pgx
+
+// Contracts checked by /verif/gocv (comment-only file; see /verif/DESIGN.md §3).
+
+// C21. Replay is first-in first-out: the only entry a worker ever claims is the oldest entry of the outbox, whoever
+// holds a lease on it. A head entry leased to another owner is not skipped - the claiming UPDATE is attempted for that
+// very entry and nothing is claimed when it does not apply - and no other candidate is looked up.
+//@ func (*pgxRepository).ClaimFirstStorageOutboxEntry
+//@ mode effects
+//@ havoc FindFirstStorageOutboxEntry
+//@ effect[C21:claim-targets-the-oldest-entry] every tx.ExecContext(_, $stmt, __)
+//@     needs before sor.FindFirstStorageOutboxEntry(_, $t, $o) -> ($e, $err)
+//@     where $stmt == claimStorageOutboxEntryStmt && $t == tx && $o == outboxId && $err == nil && $e != nil
+//@ effect[C21:no-other-candidate-is-looked-up] never tx.QueryRowContext(__)
+//@ effect[C21:no-other-candidates-are-looked-up] never tx.QueryContext(__)
+//@ effect[C21:claimed-entry-is-the-oldest] every returns() if result1
+//@     needs before sor.FindFirstStorageOutboxEntry(_, _, _) -> ($e, _)
+//@     needs before tx.ExecContext(__) -> (_, $xerr)
+//@     where result == $e && $xerr == nil
